@@ -41,9 +41,11 @@ def run(ctx):
                 "sources from those callables created by one or two from_source calls; (O) receiver in {A, A.map, D} x one or "
                 "two operations from {add, subtract, multiply, divide, power, join (match / no match / along x), broadcast} with "
                 "operands whose coordinates differ, and {map, add scalar, sum, sum keep_dim, mean, select, isel, stack, "
-                f"concatenate (also on a size-1 dimension), flatten, expand, transform}}; constants {consts}; non-trivial = at "
+                f"concatenate (also on a size-1 dimension), flatten, expand, transform}}; (T) the same parametrised operation (flatten / stack axis, "
+                f"expand internal_dim, sum / mean / concatenate backend kwargs, add scalar) twice from one receiver with different values; constants {consts}; non-trivial = at "
                 "least two operations; every case is built twice; TLC evaluates FluentNames!Post on the logged node names, "
-                "payload identities and before/after snapshots of every pre-existing action",
+                "payload identities (as they are at the end of the case, compared within and across cases) and before/after snapshots "
+                "(dims, coords, node identities, node payloads by value) of every pre-existing action",
         "clauses": ["NameInjective:different_lambdas", "NameInjective:different_callables_with_equal_name",
                     "NameInjective:different_inputs", "NameInjective:different_static_arguments", "Deterministic",
                     "OperandsIntact:<operation>", "raised", "program_not_executed", "harness_error"],
